@@ -233,3 +233,8 @@ impl<'a> Deref for CsptpMessage<'a> {
         &self.message
     }
 }
+
+// verification hook (guard: cfg(kani)); contract harnesses live outside the repository
+#[cfg(kani)]
+#[path = "/verif/kani/statime_csptp/messages.rs"]
+mod verif;
